@@ -43,6 +43,22 @@ Fixpoint entries_node (prefix : list byte) (n : tnode) : list (list byte * list 
           end) cs 0
   end.
 
+(* children[k] applied to f; dflt when nil or out of range *)
+Section Pick.
+Context {A B : Type}.
+Variable f : A -> B.
+Variable dflt : B.
+Fixpoint pick (l : list (option A)) (k : nat) : B :=
+  match l with
+  | [] => dflt
+  | oc :: l' =>
+    match k with
+    | O => match oc with Some c => f c | None => dflt end
+    | S k' => pick l' k'
+    end
+  end.
+End Pick.
+
 (* the value stored under a nibble key: the specification of Get *)
 Fixpoint lookup (n : tnode) (key : list byte) : option (list byte) :=
   match n with
@@ -51,13 +67,7 @@ Fixpoint lookup (n : tnode) (key : list byte) : option (list byte) :=
     else if is_prefix pk key then
       match skipn (length pk) key with
       | [] => None
-      | i :: rest =>
-        (fix pick (l : list (option tnode)) (k : nat) : option (list byte) :=
-           match l, k with
-           | Some c :: _, O => lookup c rest
-           | _ :: l', S k' => pick l' k'
-           | _, _ => None
-           end) cs (N.to_nat (b2n i))
+      | i :: rest => pick (fun c => lookup c rest) None cs (N.to_nat (b2n i))
       end
     else None
   end.
@@ -77,27 +87,54 @@ Definition load_value (d : db) (pk : list byte) (v : dval) : outcome (list byte 
                   end
   end.
 
-(* an inlined child was decoded in place; loadNode only re-encodes it *)
-Fixpoint inline_tnode (n : dnode) : outcome tnode :=
+(* an inlined child was decoded in place; loadNode only re-encodes it.  Stubs and hashed
+   values cannot occur inside an encoding of less than 32 bytes produced by Encode; they are
+   outside the model (E_MODEL). *)
+Fixpoint inline_ok (n : dnode) : bool :=
   match n with
-  | DStub _ => Err E_MODEL
-  | DLeaf pk (DVInline z) => Ok (TN pk (Some (zb_bytes z)) false [])
-  | DLeaf _ (DVHashed _) => Err E_MODEL
+  | DStub _ => false
+  | DLeaf _ (DVInline _) => true
+  | DLeaf _ (DVHashed _) => false
+  | DBranch _ v _ cs =>
+    match v with Some (DVHashed _) => false | _ => true end
+    && forallb (fun oc => match oc with None => true | Some c => inline_ok c end) cs
+  end.
+Fixpoint tnode_of_inline (n : dnode) : tnode :=
+  match n with
+  | DStub _ => TN [] None false []
+  | DLeaf pk (DVInline z) => TN pk (Some (zb_bytes z)) false []
+  | DLeaf pk (DVHashed h) => TN pk (Some h) false []
   | DBranch pk v _ cs =>
-    match v with
-    | Some (DVHashed _) => Err E_MODEL
-    | _ =>
-      obind ((fix go (l : list (option dnode)) : outcome (list (option tnode)) :=
-                match l with
-                | [] => Ok []
-                | None :: r => obind (go r) (fun r' => Ok (None :: r'))
-                | Some c :: r => obind (inline_tnode c) (fun c' => obind (go r) (fun r' => Ok (Some c' :: r')))
-                end) cs)
-            (fun cs' => Ok (TN pk (match v with Some (DVInline z) => Some (zb_bytes z) | _ => None end) false cs'))
+    TN pk (match v with Some (DVInline z) => Some (zb_bytes z) | _ => None end) false
+       (map (fun oc => match oc with None => None | Some c => Some (tnode_of_inline c) end) cs)
+  end.
+Definition inline_tnode (n : dnode) : outcome tnode :=
+  if inline_ok n then Ok (tnode_of_inline n) else Err E_MODEL.
+
+(* the children loop of loadNode; [ld] loads below a child fetched from the database *)
+Fixpoint load_children (ld : dnode -> outcome tnode) (d : db) (l : list (option dnode))
+  : outcome (list (option tnode)) :=
+  match l with
+  | [] => Ok []
+  | None :: r => obind (load_children ld d r) (fun r' => Ok (None :: r'))
+  | Some (DStub mv) :: r =>
+    match db_get d (zb_bytes mv) with
+    | None => Err E_DBMISS
+    | Some enc =>
+      match decode st dfix enc with
+      | Ok (Some c) =>
+        obind (ld c) (fun c' => obind (load_children ld d r) (fun r' => Ok (Some c' :: r')))
+      | Ok None => Panic            (* loadStorageValue on a nil node *)
+      | Err c => Err c
+      | Panic => Panic
+      | OutOfFuel => OutOfFuel
+      end
     end
+  | Some c :: r =>
+    obind (inline_tnode c) (fun c' => obind (load_children ld d r) (fun r' => Ok (Some c' :: r')))
   end.
 
-(* Load below a decoded node whose storage value has been loaded: loadNode *)
+(* Load below a decoded node: loadStorageValue, then loadNode *)
 Fixpoint load_node (fuel : nat) (d : db) (n : dnode) : outcome tnode :=
   match fuel with
   | O => OutOfFuel
@@ -110,27 +147,7 @@ Fixpoint load_node (fuel : nat) (d : db) (n : dnode) : outcome tnode :=
              | None => Ok (None, false)
              | Some v' => obind (load_value d pk v') (fun '(raw, mbh) => Ok (Some raw, mbh))
              end) (fun '(sv, mbh) =>
-      obind ((fix go (l : list (option dnode)) : outcome (list (option tnode)) :=
-                match l with
-                | [] => Ok []
-                | None :: r => obind (go r) (fun r' => Ok (None :: r'))
-                | Some (DStub mv) :: r =>
-                  match db_get d (zb_bytes mv) with
-                  | None => Err E_DBMISS
-                  | Some enc =>
-                    match decode st dfix enc with
-                    | Ok (Some c) =>
-                      obind (load_node f d c) (fun c' => obind (go r) (fun r' => Ok (Some c' :: r')))
-                    | Ok None => Panic            (* loadStorageValue on a nil node *)
-                    | Err c => Err c
-                    | Panic => Panic
-                    | OutOfFuel => OutOfFuel
-                    end
-                  end
-                | Some c :: r =>
-                  obind (inline_tnode c) (fun c' => obind (go r) (fun r' => Ok (Some c' :: r')))
-                end) cs)
-            (fun cs' => Ok (TN pk sv mbh cs')))
+      obind (load_children (load_node f d) d cs) (fun cs' => Ok (TN pk sv mbh cs')))
     end
   end.
 
@@ -250,32 +267,36 @@ Fixpoint erase (w : wnode) : tnode :=
 Section Write.
 Variable H : list byte -> list byte.
 
-(* writeDirtyNode; is_root selects EncodeAndHashRoot.  Returns the database and whether a
-   (non-inlined) branch was written — that is where the child tries are written too. *)
-Fixpoint write_dirty_node (is_root : bool) (d : db) (w : wnode) : db * bool :=
+(* writeDirtyNode; is_root selects EncodeAndHashRoot.  The Put calls on the batch, in order. *)
+Fixpoint wd_puts (is_root : bool) (w : wnode) : list (list byte * list byte) :=
   match w with
   | WN pk sv mbh dirty cs =>
-    if negb dirty then (d, false)
+    if negb dirty then []
     else
       let enc := encode H (erase w) in
-      let d1 := match sv with
-                | Some v => if mbh then db_put d (pk ++ H v) v else d
-                | None => d
-                end in
-      if negb is_root && (length enc <? 32)%nat then (d1, false)
-      else
-        let d2 := db_put d1 (H enc) enc in
-        match cs with
-        | [] => (d2, false)
-        | _ =>
-          ((fix go (l : list (option wnode)) (acc : db) : db :=
-              match l with
-              | [] => acc
-              | None :: r => go r acc
-              | Some c :: r => go r (fst (write_dirty_node false acc c))
-              end) cs d2, true)
-        end
+      (match sv with
+       | Some v => if mbh then [(pk ++ H v, v)] else []
+       | None => []
+       end)
+      ++ (if negb is_root && (length enc <? 32)%nat then []
+          else (H enc, enc)
+               :: flat_map (fun oc => match oc with None => [] | Some c => wd_puts false c end) cs)
   end.
+
+(* whether a (non-inlined) dirty branch was written: that is where the pinned tree writes the
+   child tries *)
+Definition wrote_branch (is_root : bool) (w : wnode) : bool :=
+  match w with
+  | WN pk sv mbh dirty cs =>
+    dirty && negb (negb is_root && (length (encode H (erase w)) <? 32)%nat)
+    && match cs with [] => false | _ => true end
+  end.
+
+Definition db_puts (d : db) (l : list (list byte * list byte)) : db :=
+  fold_left (fun acc kv => db_put acc (fst kv) (snd kv)) l d.
+
+Definition write_dirty_node (is_root : bool) (d : db) (w : wnode) : db * bool :=
+  (db_puts d (wd_puts is_root w), wrote_branch is_root w).
 
 (* InMemoryTrie.WriteDirty: the child tries are written from inside a dirty branch of the main
    trie.  cfix = true: fixes/C04-5-writedirty-child-tries.patch (always written) *)
